@@ -85,6 +85,28 @@ theorem C13_associators_via_references {S : NsStore} {x : Path} {f : AFilter} {l
   obtain ⟨a, ha, hp, q, hq, hoe⟩ := (mem_assocInstNames h y).mp hy
   exact ⟨a, ha, List.mem_map.mpr ⟨a, mem_refInsts.mpr ⟨ha, hp⟩, rfl⟩, q, hq, (otherEnd_iff.mp hoe).2.1⟩
 
+/-- operation level (what `FakedWBEMConnection.AssociatorNames` returns): the returned paths are exactly
+    the host-completed stored values `y ≢ x` linked to the source by a stored instance of the request
+    namespace; the source enters only through class name, keybindings and the request namespace. -/
+theorem C13_associator_characterisation_operation {sv : Server} {ns : Name} {x : Path} {f : AFilter}
+    {S : NsStore} {l : List Path} (hS : findNs sv.repo ns = some S)
+    (h : associatorNamesI sv ns x f = .ok l) (z : Path) :
+    z ∈ l ↔ ∃ y, z = fillHost sv.host y ∧ y.eqv (srcPath ns x) = false ∧
+      ∃ a ∈ S.insts, Linked S.classes a (srcPath ns x) y f := by
+  unfold associatorNamesI withNs at h
+  simp only [hS] at h
+  cases hn : assocInstNames S (srcPath ns x) f with
+  | error e => simp [hn] at h
+  | ok l0 =>
+    simp only [hn] at h
+    cases h
+    simp only [List.mem_map]
+    constructor
+    · rintro ⟨y, hy, rfl⟩
+      exact ⟨y, rfl, (C13_associator_characterisation hn y).mp hy⟩
+    · rintro ⟨y, rfl, hy⟩
+      exact ⟨y, (C13_associator_characterisation hn y).mpr hy, rfl⟩
+
 /-! ## 2. adding a filter never adds results -/
 
 /-- **filter_monotone**, AssociatorNames: if the operation succeeds with the filters `f'`, it succeeds
@@ -324,6 +346,40 @@ theorem C13_names_errors_documented {sv : Server} {ns : Name} {x : Path} {f : AF
       | error e' => simp; intro h; subst h; exact Or.inr (refInstsE_error hr)
       | ok l0 => simp
 
+/-- exact status of AssociatorNames (instance level): INVALID_NAMESPACE iff the namespace is unknown;
+    otherwise INVALID_PARAMETER iff the source class, an active AssocClass or an active ResultClass is
+    not in the class store; otherwise a result. -/
+theorem C13_associator_names_status_exact {sv : Server} {ns : Name} {x : Path} {f : AFilter} :
+    (findNs sv.repo ns = none ∧ associatorNamesI sv ns x f = .error errNamespace) ∨
+    (∃ S, findNs sv.repo ns = some S ∧
+      ((classExists S.classes x.cls = true ∧ filterClassOk S.classes f.assocClass = true ∧
+          filterClassOk S.classes f.resultClass = true ∧ ∃ l, associatorNamesI sv ns x f = .ok l) ∨
+       ((classExists S.classes x.cls = false ∨ filterClassOk S.classes f.assocClass = false ∨
+          filterClassOk S.classes f.resultClass = false) ∧ associatorNamesI sv ns x f = .error errParam))) := by
+  unfold associatorNamesI withNs
+  cases hS : findNs sv.repo ns with
+  | none => exact Or.inl ⟨rfl, rfl⟩
+  | some S =>
+    right
+    refine ⟨S, rfl, ?_⟩
+    simp only
+    cases hn : assocInstNames S (srcPath ns x) f with
+    | ok l0 =>
+      obtain ⟨h1, h2, h3, _⟩ := assocInstNames_ok hn
+      exact Or.inl ⟨h3, h1, h2, _, rfl⟩
+    | error e =>
+      right
+      have he := assocInstNames_error hn
+      subst he
+      refine ⟨?_, rfl⟩
+      by_cases h3 : classExists S.classes x.cls = true
+      · by_cases h1 : filterClassOk S.classes f.assocClass = true
+        · by_cases h2 : filterClassOk S.classes f.resultClass = true
+          · have := assocInstNames_eq_ok (S := S) (x := srcPath ns x) (f := f) h1 h2 h3
+            rw [this] at hn; cases hn
+          · exact Or.inr (Or.inr (by simpa using h2))
+        · exact Or.inr (Or.inl (by simpa using h1))
+      · exact Or.inl (by simpa using h3)
 /-- the CIM status codes of the raise sites (regenerated from the source text on every run) are the
     ones DSP0200 prescribes for these operations: INVALID_NAMESPACE (3), INVALID_PARAMETER (4) for an
     unknown source / filter class and for a bad end point, INVALID_CLASS (5), NOT_FOUND (6),
